@@ -1517,6 +1517,63 @@ class _InlineNewTemps:
                 c.body = self._block(c.body)
 
 
+def _propagate_new_aliases(fn: ast.FunctionDef, keep: set[str]) -> int:
+    """``x = p.a.b`` (a local the baseline does not have, bound once, to a call-free attribute chain of a name that
+    is itself never re-bound) is replaced by ``p.a.b`` at every use: the package's frozen values make the chain
+    denote the same object every time it is read."""
+    stores: dict[str, int] = {}
+    for n in ast.walk(fn):
+        if isinstance(n, ast.Name) and isinstance(n.ctx, ast.Store):
+            stores[n.id] = stores.get(n.id, 0) + 1
+        elif isinstance(n, (ast.MatchAs, ast.MatchStar)) and n.name:
+            stores[n.name] = stores.get(n.name, 0) + 1
+        elif isinstance(n, ast.arg):
+            stores[n.arg] = stores.get(n.arg, 0) + 0
+    params = {a.arg for a in fn.args.posonlyargs + fn.args.args + fn.args.kwonlyargs}
+    changed = 0
+    for _ in range(3):
+        found = None
+        for n in ast.walk(fn):
+            if isinstance(n, ast.Assign) and len(n.targets) == 1 and isinstance(n.targets[0], ast.Name):
+                nm, v = n.targets[0].id, n.value
+                if nm in keep or stores.get(nm, 0) != 1 or not isinstance(v, ast.Attribute):
+                    continue
+                root = v
+                while isinstance(root, ast.Attribute):
+                    root = root.value
+                if not isinstance(root, ast.Name) or root.id == nm:
+                    continue
+                if stores.get(root.id, 0) > (0 if root.id in params else 1):
+                    continue  # the root is re-bound somewhere
+                found = (n, nm, v)
+                break
+        if found is None:
+            break
+        assign, nm, v = found
+
+        class Rm(ast.NodeTransformer):
+            def visit_Assign(self, node):
+                if node is assign:
+                    return None
+                self.generic_visit(node)
+                return node
+
+            def visit_Name(self, node):
+                if node.id == nm and isinstance(node.ctx, ast.Load):
+                    return ast.copy_location(copy.deepcopy(v), node)
+                return node
+
+        Rm().visit(fn)
+        for node in ast.walk(fn):
+            for field in ("body", "orelse", "finalbody"):
+                b = getattr(node, field, None)
+                if isinstance(b, list) and not b and field == "body":
+                    b.append(ast.Pass())
+        stores[nm] = 0
+        changed += 1
+    return changed
+
+
 def inline_new_temps(rel: str, tree: ast.Module) -> int:
     base = baseline_locals()
     if not base:
@@ -1597,3 +1654,106 @@ def lazy_pipelines(tree: ast.Module) -> int:
     t.visit(tree)
     ast.fix_missing_locations(tree)
     return t.changed
+
+
+# ------------------------------------------------------------------------------------------------------------------
+# N11: a nested one-expression function is the lambda it could have been
+#
+# ``def f(row): return E`` followed by uses of ``f`` as a value  ->  ``lambda row: E`` at those uses.
+
+
+class _NestedDefsToLambdas(ast.NodeTransformer):
+    def __init__(self):
+        self.changed = 0
+
+    def visit_FunctionDef(self, outer: ast.FunctionDef):
+        self.generic_visit(outer)
+        cands: dict[str, ast.Lambda] = {}
+
+        def scan(stmts):
+            for s in stmts:
+                if isinstance(s, ast.FunctionDef) and not s.decorator_list:
+                    body = _body(s)
+                    a = s.args
+                    if len(body) == 1 and isinstance(body[0], ast.Return) and body[0].value is not None and not (a.vararg or a.kwarg or a.kwonlyargs or a.posonlyargs or a.defaults):
+                        if not any(isinstance(n, (ast.Yield, ast.YieldFrom, ast.Await)) for n in ast.walk(body[0])):
+                            cands[s.name] = ast.Lambda(args=ast.arguments(posonlyargs=[], args=[ast.arg(x.arg) for x in a.args], kwonlyargs=[], kw_defaults=[], defaults=[]), body=body[0].value)
+                for field in ("body", "orelse", "finalbody"):
+                    v = getattr(s, field, None)
+                    if isinstance(v, list) and not isinstance(s, (ast.FunctionDef, ast.ClassDef)):
+                        scan(v)
+                if isinstance(s, ast.Match):
+                    for c in s.cases:
+                        scan(c.body)
+
+        scan(outer.body)
+        if not cands:
+            return outer
+        # a name defined twice, re-bound, or called recursively keeps its def
+        counts: dict[str, int] = {}
+        for n in ast.walk(outer):
+            if isinstance(n, ast.FunctionDef) and n is not outer and n.name in cands:
+                counts[n.name] = counts.get(n.name, 0) + 1
+            elif isinstance(n, ast.Name) and isinstance(n.ctx, ast.Store) and n.id in cands:
+                counts[n.id] = counts.get(n.id, 0) + 5
+        for nm, lam in list(cands.items()):
+            if counts.get(nm, 0) != 1 or any(isinstance(n, ast.Name) and n.id == nm for n in ast.walk(lam.body)):
+                del cands[nm]
+        if not cands:
+            return outer
+
+        class Use(ast.NodeTransformer):
+            def visit_Name(self, n):
+                if isinstance(n.ctx, ast.Load) and n.id in cands:
+                    return ast.copy_location(copy.deepcopy(cands[n.id]), n)
+                return n
+
+            def visit_FunctionDef(self, n):
+                if n.name in cands:
+                    return None
+                self.generic_visit(n)
+                return n
+
+        def strip(stmts):
+            out = []
+            for s in stmts:
+                if isinstance(s, ast.FunctionDef) and s.name in cands:
+                    continue
+                r = Use().visit(s)
+                if r is not None:
+                    out.append(r)
+            return out or [ast.Pass()]
+
+        outer.body = strip(outer.body)
+        self.changed += len(cands)
+        return outer
+
+
+def nested_defs_to_lambdas(tree: ast.Module) -> int:
+    t = _NestedDefsToLambdas()
+    t.visit(tree)
+    ast.fix_missing_locations(tree)
+    return t.changed
+
+
+
+def propagate_new_aliases(rel: str, tree: ast.Module) -> int:
+    """N12, run after N4 (aliases that can become pattern captures have become captures by then)."""
+    base = baseline_locals()
+    if not base:
+        return 0
+    total = 0
+    for node in tree.body:
+        if isinstance(node, ast.FunctionDef):
+            keep = base.get(f"{rel}::{node.name}")
+            if keep is not None:
+                total += _propagate_new_aliases(node, set(keep))
+        elif isinstance(node, ast.ClassDef):
+            for s in node.body:
+                if isinstance(s, ast.FunctionDef):
+                    keep = base.get(f"{rel}::{node.name}.{s.name}")
+                    if keep is not None:
+                        total += _propagate_new_aliases(s, set(keep))
+    if total:
+        ast.fix_missing_locations(tree)
+    return total
